@@ -17,7 +17,7 @@
    The bracketed bodies are the functions of SlabModel.v themselves (alloc_small on a non-empty bucket IS
    pop_head + hand_out; account_add, attach_slab, hand_out, free_small, free_large, move_log, set_req, write_ are
    called as they are); the only function that had to be cut here is alloc_large (map / private frame / publish under
-   _tree_mutex): [construct_large] + [publish_large].  ConcSlabProofs.solo_run_is_step proves that running one
+   _tree_mutex): [construct_large] + [publish_large].  ConcSlabSolo.solo_run_is_step / ConcSlabSoloRun.solo_schedule_is_step prove that running one
    call alone to completion is SlabModel.step (state, result and callback list).
 
    Granularity: one scheduler step = one segment; a locked body is ONE step.  This is justified by the control layer:
